@@ -227,3 +227,34 @@ Fixpoint tr_differ (c : trcfg) (s : trtb) (obs : list (raction * list (pkt * col
       | Some (s', outs') => if tr_same c s' outs' outs smp then tr_differ c s' rest (S i) else Some (i, Some s')
       end
   end.
+
+(* ---- the hand-off: what the next hop sees of the bucket inside its put() (see Bucket.v) ------------------- *)
+Definition tr_hand_view (s' : trtb) : trsample :=
+  (rrecv s', (rsent s' - 1)%Z, lc s', lp s', rut s', length (sq_held (rq s'))).
+
+Definition trsample_eqb (c : trcfg) (a b : trsample) : bool :=
+  let '(r, sn, vc, vp, ut, n) := a in
+  let '(r', sn', vc', vp', ut', n') := b in
+  Z.eqb r r' && Z.eqb sn sn' && Qeq_bool vc vc' && (match pk c with Some _ => Qeq_bool vp vp' | None => true end)
+  && Qeq_bool ut ut' && Nat.eqb n n'.
+
+Fixpoint tr_hands_eqb (c : trcfg) (s' : trtb) (fw : list (pkt * colour)) (obs : list (pkt * colour * trsample)) : bool :=
+  match fw, obs with
+  | [], [] => true
+  | (p, col) :: fw', (q, col', h) :: obs' =>
+      pkt_eqb p q && colour_eqb col col' && trsample_eqb c (tr_hand_view s') h && tr_hands_eqb c s' fw' obs'
+  | _, _ => false
+  end.
+
+Fixpoint tr_agree_h (c : trcfg) (s : trtb) (obs : list (raction * list (pkt * colour * trsample) * trsample)) : bool :=
+  match obs with
+  | [] => true
+  | (a, outs, smp) :: rest =>
+      match tr_act true true c s a with
+      | None => false
+      | Some (s', outs') =>
+          tr_hands_eqb c s' (rfwds_of outs') outs
+          && trsample_eqb c (rrecv s', rsent s', lc s', lp s', rut s', length (items (rq s'))) smp
+          && tr_agree_h c s' rest
+      end
+  end.
